@@ -24,9 +24,10 @@ ASSUMPTIONS = ["label equivalence oracle = str.casefold() after ' '.join(label.s
 
 LABELS = ["r", "R", "Foo Bar", "foo  bar", "FOO\tbar", "foo\nbar", "ß", "SS", "ss", "ẞ", "É", "é", "ǅ", "ǆ", "Ǆ", "Σ", "ς", "σ", "İ", "i̇", "ı", "I", "i", "K", "k", "K",
           "Å", "å", "Å", "\xa0x", "x\xa0", "x\ty", "x y", "x  y", "x\xa0y", "x\u2003y", "x\x0cy", "x \xa0 y", "x\x0b\ty", "x\u2028y", "a\\]b", "a\\]B", "x*y*", "X*Y*", "ﬁ", "fi", "FI", "straße", "STRASSE", "ΐ", "ΐ", "ŉ", "ʼn", "θ", "ϑ", "ϴ",
-          "long label with many words", "Long  Label with\tMany words", "1", "١", "!", "\\!"]
+          "long label with many words", "Long  Label with\tMany words",
+          "w1 w2 w3 w4 w5 w6 w7 w8 w9 w10 w11 w12", "W1  w2 w3\tw4 w5 w6 w7 w8 w9  w10\tw11\nw12", "w1 w2 w3 w4 w5 w6 w7 w8 w9 w10 w11\xa0w12", "1", "١", "!", "\\!"]
 TITLES = ["", ' "t"', " 't'", " (t)", ' "a \\" b"', ' "&amp; *x*"', ' "multi\nline"', " 'it\\'s'", ' "é"', ' ""', " '\\''", ' "a\\\\"', ' "(x)"', " (a\\)b)", "\n'next line'",
-          ' "tab\there"', " (&quot;)", ' "<b>"']
+          ' "tab\there"', " (&quot;)", ' "<b>"', ' "one\\\ntwo"', " 'a\\\nb\\\nc'", ' "x\\\\"', " (p\\\nq)"]
 DESTS = ["/u", "http://x.y/z?a=b&c", "<a b>", "<>", "a(b)c", "a\\(b", "&amp;x", "%20x", "é", "x#f", "a\\*b", "<a\\>b>", "&#35;", "javascript:x", "a_b_c", "a*b*", "x\\\\y",
          "<(>", "((a))", "a\\)", "/ü/%zz", "<a\tb>", "data:image/png;base64,x", "#", "//h/p", "\\<a>", "&copy;", "<\\<>"]
 TEXTS = ["t", "*e*", "`c`", "a b", "x\\]y", "![i](s)", "é", "a\nb", "&amp;", "[in]", "**s** _e_", "<b>h</b>", "a\\\\", "`]`", "x [y] z", "", "\\[", "<http://a.b>", "  p  ", "a  \nb"]
@@ -60,7 +61,8 @@ def seed_case(ctx, case):
     env = {}
     try:
         if md.parse(R, env):
-            ctx.count("seed.R_not_pure_definitions")
+            # R is built from a grammar of well-formed definitions only: anything left over means one was not recognised as a whole
+            viol(ctx, "wellformed-definition-not-recognised", f"definition block {R!r} leaves tokens {[t.type + ':' + t.content[:30] for t in md.parse(R, {})][:6]}", case)
             return
         if hist == "twice":
             md.parse(R, env)
@@ -101,6 +103,9 @@ def acct_case(ctx, case):
         ctx.count("skipped.exception")
         return
     ctx.count("acct.docs")
+    if case.get("pure") and any(t.type != "definition" for t in toks):
+        viol(ctx, "wellformed-definition-not-recognised", f"a block of well-formed definitions leaves tokens {[t.type + ':' + t.content[:30] for t in toks if t.type != 'definition'][:6]}", case)
+        return
     produced = []
     for t in toks:
         if t.type == "definition":
@@ -216,6 +221,9 @@ def triple_case(ctx, case):
         return
     ctx.count("triples.both_link")
     ctx.nontrivial("triple", text, dest, title, bang)
+    if len(tr) != 3:
+        viol(ctx, "reference-vs-inline:definition-residue", f"reference form resolves but the definition left extra tokens {[t.type + ':' + t.content[:30] for t in tr[3:]][:4]}: {ref!r}", case)
+        return
     d = first_diff(stream(ci), stream(cr))
     if d:
         viol(ctx, "reference-vs-inline:tokens-differ", f"{d} | {inl!r} vs {ref!r}", case)
@@ -305,11 +313,7 @@ def run(ctx):
         md = W.get_md(MDI)
         # keep only the definitions the parser recognised as such line-exactly is the property; a title that fails to parse
         # makes the line a paragraph - then nothing is recorded for it and it is not a 'definition in the source'
-        toks = md.parse(src, env)
-        if any(t.type == "paragraph_open" for t in toks):
-            ctx.count("acct.block_with_nondefinition_skipped")
-            continue
-        acct_case(ctx, {"kind": "acct", "src": src, "written": written})
+        acct_case(ctx, {"kind": "acct", "src": src, "written": written, "pure": True})
     # (3)
     classes = {}
     for l in LABELS:
